@@ -71,7 +71,12 @@ class Deps:
 
     def memzero(self, I, st, args, inst):
         p, n = args[0], args[1].concrete()
-        if n is None: raise Unmodelled('memzero with symbolic length at %s' % inst.loc)
+        if n is None:
+            # length not a constant: record the event, weak-update the target object
+            st.trace.append(('memzero-symbolic-length', repr(p), I.V.show_bv(args[1])[:3], inst.loc))
+            if isinstance(p, Ptr) and p.obj in st.mem.objs:
+                st.mem.objs[p.obj] = [[T(0)] * 8 for _ in st.mem.objs[p.obj]]; st.mem.owned.add(p.obj)
+            return None
         st.trace.append(('memzero', repr(p), n, inst.loc))
         obj, off = I._cells(st, p, n, inst, 'store')
         if obj is None: raise Unmodelled('memzero through a symbolic pointer at %s' % inst.loc)
